@@ -1,4 +1,5 @@
 import BdModel.Proofs.RetryClosure
+import BdModel.Proofs.Sched.Progress
 /-
   C10 — retry re-executes exactly the unfinished part of a recorded run.
   Property theorems only (helpers: Proofs/RetryBfs, RetryKeep, RetryClosure).
@@ -76,6 +77,19 @@ theorem C10_kept (c : Cfg) (n : Nat) (es : List (Nat × Nat)) (st : Nat → NSta
   have := keep_inv_gen c st i hk _ h0 s h
   exact ⟨this.1, this.2.1, this.2.2.1⟩
 
+
+/-- **C10 (the retry run gets going).** The state `setupRetry` hands to the scheduler is never stuck:
+    no step is `running` without a worker (C10_no_orphan), so unless everything is already finished
+    the first scan of the loop launches or labels a step — for every acyclic graph and EVERY recorded
+    vector. (On the pinned tree the orphan `running` step made `isFinished` false for ever while no
+    visit could change anything: the retry span — F11.) -/
+theorem C10_starts_moving (c : Cfg) (hw : WF c) (hrk : Ranked c) (es : List (Nat × Nat)) (st : Nat → NStatus)
+    (rc dc : Nat → Nat) (hg : GoodGraph c.n es)
+    (hnf : isFinished c (initRetry c.n es st rc dc resetSet) = false) :
+    ∃ i s', step c (initRetry c.n es st rc dc resetSet) (.visitDecide i) = some s' ∧
+      s' ≠ initRetry c.n es st rc dc resetSet :=
+  scan_progress c hw hrk _ rfl rfl hnf (fun j hj => C10_no_orphan c.n es st rc dc hg j hj)
+
 /-- on the pinned tree (reset set without `running`) the chain finished → running → not started keeps
     its orphan `running` step: `isFinished` can never become true without a stop (F11 witness) -/
 theorem C10_pinned_orphan :
@@ -93,4 +107,5 @@ end BdModel.P10
 #print axioms BdModel.P10.C10_start
 #print axioms BdModel.P10.C10_no_orphan
 #print axioms BdModel.P10.C10_kept
+#print axioms BdModel.P10.C10_starts_moving
 #print axioms BdModel.P10.C10_pinned_orphan
